@@ -49,6 +49,8 @@ def units(tier, seed):
             u.append([{"v": v, "off": off, "sc": sc} for v in vs[i : i + 6]])
     cent = [[-1.0, 0.0, 1.0], [-2.0, -1.0, 1.0, 2.0], [-5.0, 0.0, 5.0], [-3.0, 1.0, 2.0], [-1.0, -1.0, 2.0], [-2.0, -2.0, -1.0, 5.0], [0.5, -0.5, 1.5, -1.5, 0.0]]
     u.append([{"v": v, "off": 0.0, "sc": 1.0} for v in cent])  # training mean exactly zero
+    for rot in (0, 1):  # more than a thousand values (four distinct ones)
+        u.append([{"long": rot, "off": 0.0, "sc": 1.0}])
     u.append([{"invalid": True}])
     u.append([{"design": True}])
     u.append([{"two-instances": True}])
@@ -426,6 +428,9 @@ def check_case(case, acc):
         return check_invalid(case, acc)
     if case.get("two-instances"):
         return check_two(case, acc)
+    orig = case
+    if "long" in case:
+        case = dict(case, v=([0.0, 1.0, 2.0, 5.0] * 301)[case["long"] : case["long"] + 1201])
     x = case["off"] + case["sc"] * np.array(case["v"], dtype=float)
     cond = max(1.0, abs(case["off"]) / case["sc"] / 10.0)
     problems = []
@@ -434,14 +439,14 @@ def check_case(case, acc):
     check_poly(x, problems, acc, cond)
     check_int_dtypes(x, problems, acc)
     if problems:
-        acc.case(case, "MISMATCH", sample=False)
+        acc.case(orig, "MISMATCH", sample=False)
         seen = set()
         for clause, msg in problems:
             if clause not in seen:
                 seen.add(clause)
-                acc.violation(clause, "contract", case, f"x={x.tolist()}: {msg}")
+                acc.violation(clause, "contract", orig, f"x={x.tolist() if len(x) < 20 else str(x[:8].tolist()) + ' ... (' + str(len(x)) + ' values)'}: {msg}")
     else:
-        acc.case(case, "ok", nontrivial=len(set(case["v"])) < len(case["v"]) or case["off"] > 0)
+        acc.case(orig, "ok", nontrivial=len(set(case["v"])) < len(case["v"]) or case["off"] > 0)
 
 
 def classify(case, clause, sig, detail):
